@@ -65,7 +65,7 @@ def _die_with_parent():
         pass
 
 
-def fork_map(fn, items, nproc=NPROC, timeout=120.0, on_result=None):
+def fork_map(fn, items, nproc=NPROC, timeout=900.0, on_result=None):
     """Run fn(item) for every item, each in a freshly forked child (full isolation of
     monkey-patches, signal handlers, module state). Returns list of results in order.
     A child that raises returns {"_error": traceback}; one that times out {"_timeout": True}."""
